@@ -1108,3 +1108,9 @@ Theorem C15_optbool_as_flag_refuted :
   exists d v argv v', print d v = Some argv /\ derived_parse d ([112; 114; 111; 103] :: argv) = PValue v' /\ v' <> v.
 Proof. exact optbool_as_flag_refuted. Qed.
 Print Assumptions C15_optbool_as_flag_refuted.
+
+(** Non-vacuity of the hypothesis [names_disjoint] of [C15_enum_bijection] / [C15_enum_hidden_accepted] / [C15_roundtrip_parse_enum]
+    for an enum with two kept variants, one of them hidden with an alias ([ex_henum]), under both comparisons. *)
+Theorem C15_enum_names_disjoint_nonvacuous : names_disjoint false ex_henum /\ names_disjoint true ex_henum.
+Proof. split; [exact ex_henum_disjoint_cs|exact ex_henum_disjoint_ci]. Qed.
+Print Assumptions C15_enum_names_disjoint_nonvacuous.
